@@ -110,7 +110,7 @@ def run(ctx: core.Ctx) -> int:
                    construct="writes:" + ";".join(sorted(w.kind + " " + w.target for w in ws)),
                    msg="prediction path is not side-effect free: " + "; ".join(f"{w.kind} {w.target} (line {w.line})" for w in ws),
                    line=ws[0].line if ws else None)
-    ctx.floor("ARR-MM", scenarios.count(it, "ARR-MM", "process_model"), 4, "matrix products in process_model")
+    ctx.floor("ARR-MM", scenarios.count(it, "ARR-MM", "process_model"), 2, "matrix products in process_model")
     ctx.floor("ARR-EW", scenarios.count(it, "ARR-EW", "process_model"), 1, "sums in process_model")
     ctx.floor("COV-FORM", n_form, 1, "returned covariance forms")
     ctx.floor("STATE-CALL", n_state, 1, "returned states")
